@@ -91,6 +91,11 @@ add("C14", "exploration",
     "ground truth = dotted-prefix coverage of the edited module by the accepted names",
     "runtime monitoring: before/after signature-map monitor across the accepted-module boundary", "E1-pipeline")
 
+add("C10", "exploration",
+    "Failure monitor: every function reachable from the entry of generated programs is made to raise (6 exception classes incl. BaseException subclasses, before/after its sub-calls); observed: identity of the exception object at the call site, store_blob keys and sync_paths calls of the failed evaluation vs the signatures of completed / waiting nodes, path state before/after, context reset, then value and execution log of the repaired pipeline, another pipeline and the repaired one again in the same (or a new) process. Held on the cases observed.",
+    "constrains kept nodes only; signature map of the failed evaluation read through the counted all_store_paths wrapper",
+    "runtime monitoring: exception-identity + store-effect monitor with follow-up evaluations", "E1-pipeline")
+
 NOT_YET = {}
 
 
